@@ -86,6 +86,30 @@ theorem C16_paint_path_statement_cex : ¬ C16_paint_path_statement := by
   revert h2
   decide +kernel
 
+/-! ## Tables regenerated from the Python source agree with ISO 32000-1 -/
+
+/-- The painting-operator flags extracted from `do_S .. do_b_a` are those of ISO 32000-1 table 60
+(`F` = `f`; `s b b*` close first).  An edit of a flag in pdfinterp.py breaks this proof. -/
+theorem C16_paint_flags (k : OpK) (hk : k ∈ OpK.all) : paintOps.lookup k.name = paintFlags k := by
+  simp only [OpK.all, List.mem_cons, List.mem_nil_iff, or_false] at hk
+  rcases hk with rfl | rfl | rfl | rfl | rfl | rfl | rfl | rfl | rfl | rfl | rfl | rfl | rfl | rfl | rfl | rfl | rfl |
+    rfl | rfl | rfl | rfl | rfl | rfl | rfl | rfl | rfl | rfl | rfl | rfl | rfl | rfl | rfl | rfl | rfl | rfl | rfl |
+    rfl | rfl | rfl | rfl | rfl | rfl <;> decide
+
+/-- `re` appends `m (x,y)  l (x+w,y)  l (x+w,y+h)  l (x,y+h)  h` (ISO 32000-1 table 59). -/
+theorem C16_re_path (x y w h : Rat) :
+    (rePath x y w h).filterMap segOfRaw =
+      [PSeg.m (x, y), PSeg.l (x + w, y), PSeg.l (x + w, y + h), PSeg.l (x, y + h), PSeg.h] := by
+  simp [rePath, segOfRaw]
+
+/-- The initial CTM chosen by `process_page` maps one MediaBox corner to the origin for each /Rotate. -/
+theorem C16_page_ctm (x0 y0 x1 y1 : Rat) :
+    apply_matrix_pt (pageCtm 0 x0 y0 x1 y1) (x0, y0) = (0, 0) ∧
+    apply_matrix_pt (pageCtm 90 x0 y0 x1 y1) (x1, y0) = (0, 0) ∧
+    apply_matrix_pt (pageCtm 180 x0 y0 x1 y1) (x1, y1) = (0, 0) ∧
+    apply_matrix_pt (pageCtm 270 x0 y0 x1 y1) (x0, y1) = (0, 0) := by
+  refine ⟨?_, ?_, ?_, ?_⟩ <;> simp [pageCtm, apply_matrix_pt] <;> grind
+
 /-! ## No residue -/
 
 /-- Every painting operator and `n` leaves an empty current path (nothing leaks into the next path). -/
